@@ -122,6 +122,8 @@ static std::map<std::string, std::string> streams; // named in-memory streams
 static std::string workdir = ".";
 static Slot &S(const std::string &n) { auto &p = slots[n]; if (!p) p.reset(new Slot()); return *p; }
 
+static const int MAX_POINTS = 20000;   // grids beyond this size are dropped / refinements beyond it are cleared (keeps every case within its time budget)
+static void size_guard(TasmanianSparseGrid &g) { if (g.getNumNeeded() > MAX_POINTS) { g.clearRefinement(); throw std::runtime_error("driver: refinement too large for this check, cleared"); } }
 static uint64_t dig = 0;
 static void dmix(const void *p, size_t n) { const unsigned char *c = (const unsigned char *) p; for (size_t i = 0; i < n; i++) dig = mix(dig ^ c[i]) + 0x9e3779b97f4a7c15ULL; }
 
@@ -311,7 +313,8 @@ static void run_line(const std::string &line) {
         else if (fam == "wavelet") { int order = k.ni(); auto m = k.keyed(); s.g.makeWaveletGrid(d, outs, depth, order, toInts(m["ll:"])); }
         else if (fam == "fourier") { TypeDepth ty = DEPTHS.at(k.next()); auto m = k.keyed(); s.g.makeFourierGrid(d, outs, depth, ty, toInts(m["aw:"]), toInts(m["ll:"])); }
         else throw std::runtime_error("driver: unknown family");
-        s.cand.clear();
+        s.cand.clear(); s.delivered.clear();
+        if (s.g.getNumPoints() > MAX_POINTS) { s.g = TasmanianSparseGrid(); throw std::runtime_error("driver: grid too large for this check, dropped"); }
     }
     else if (cmd == "trans") { Slot &s = S(k.next()); auto m = k.keyed(); s.g.setDomainTransform(toDbls(m["a:"]), toDbls(m["b:"])); }
     else if (cmd == "cleartrans") S(k.next()).g.clearDomainTransform();
@@ -328,10 +331,11 @@ static void run_line(const std::string &line) {
         if (sc != "none") { size_t n = (size_t) g.getNumLoaded() * (size_t) ((out == -1) ? g.getNumOutputs() : 1); if (sc == "bad") n += 1; scale.resize(n);
             for (size_t i = 0; i < n; i++) scale[i] = (sc == "ones") ? 1.0 : (sc == "half") ? 0.5 : ((double) (mix(i + 17) % 1000) / 500.0); }
         if (ov == "vec") g.setSurplusRefinement(tol, cr, out, ll, scale);
-        else g.setSurplusRefinement(tol, cr, out, ll.empty() ? nullptr : ll.data(), scale.empty() ? nullptr : scale.data()); }
-    else if (cmd == "refsimple") { Slot &s = S(k.next()); double tol = k.nd(); int out = k.ni(); auto m = k.keyed(); s.g.setSurplusRefinement(tol, out, toInts(m["ll:"])); }
-    else if (cmd == "refaniso") { Slot &s = S(k.next()); TypeDepth ty = DEPTHS.at(k.next()); int mg = k.ni(); int out = k.ni(); auto m = k.keyed(); s.g.setAnisotropicRefinement(ty, mg, out, toInts(m["ll:"])); }
-    else if (cmd == "update") { Slot &s = S(k.next()); int depth = k.ni(); TypeDepth ty = DEPTHS.at(k.next()); auto m = k.keyed(); s.g.updateGrid(depth, ty, toInts(m["aw:"]), toInts(m["ll:"])); }
+        else g.setSurplusRefinement(tol, cr, out, ll.empty() ? nullptr : ll.data(), scale.empty() ? nullptr : scale.data());
+        size_guard(g); }
+    else if (cmd == "refsimple") { Slot &s = S(k.next()); double tol = k.nd(); int out = k.ni(); auto m = k.keyed(); s.g.setSurplusRefinement(tol, out, toInts(m["ll:"])); size_guard(s.g); }
+    else if (cmd == "refaniso") { Slot &s = S(k.next()); TypeDepth ty = DEPTHS.at(k.next()); int mg = k.ni(); int out = k.ni(); auto m = k.keyed(); s.g.setAnisotropicRefinement(ty, mg, out, toInts(m["ll:"])); size_guard(s.g); }
+    else if (cmd == "update") { Slot &s = S(k.next()); int depth = k.ni(); TypeDepth ty = DEPTHS.at(k.next()); auto m = k.keyed(); s.g.updateGrid(depth, ty, toInts(m["aw:"]), toInts(m["ll:"])); if (s.g.getNumPoints() > MAX_POINTS && s.g.getNumLoaded() == 0) { s.g = TasmanianSparseGrid(); throw std::runtime_error("driver: grid too large for this check, dropped"); } size_guard(s.g); }
     else if (cmd == "merge") S(k.next()).g.mergeRefinement();
     else if (cmd == "clearref") S(k.next()).g.clearRefinement();
     else if (cmd == "setcoef") { Slot &s = S(k.next()); std::string fn = k.next(); TasmanianSparseGrid &g = s.g;
